@@ -879,7 +879,14 @@ impl Scenario for C11 {
 
     fn generate(rng: &mut Rng, tier: Tier, _k: u64) -> Case {
         let f = grel::RelFlags::swarm(rng);
-        let init = if rng.chance(1, 6) { String::new() } else { grel::field(rng, &f) };
+        let mut init = if rng.chance(1, 6) { String::new() } else { grel::field(rng, &f) };
+        if rng.chance(1, 12) {
+            // twins: a later entry that is one alternative short of an earlier one (edits through a handle must stay
+            // with their entry even when the field holds an identical one)
+            let a = grel::relation(rng, &grel::RelFlags::canonical());
+            let b = grel::relation(rng, &grel::RelFlags::canonical());
+            init = format!("{a} | {b}, {a}");
+        }
         let mut model = parse_field(&init, true).unwrap_or_default();
         let steps = match tier {
             Tier::Quick => 1 + rng.below(8),
@@ -996,7 +1003,19 @@ impl Scenario for C11 {
                     };
                     match k {
                         6 => {
-                            let rel = gen_relspec(rng, seq);
+                            let mut rel = gen_relspec(rng, seq);
+                            // now and then the alternative that makes this entry the twin of another one
+                            if rng.chance(1, 3) {
+                                if let EntryM::Alts(mine) = &model[mi] {
+                                    let twin = model.iter().enumerate().find_map(|(j, e)| match e {
+                                        EntryM::Alts(o) if j != mi && o.len() == mine.len() + 1 && o[..mine.len()] == mine[..] => Some(o[mine.len()].text()),
+                                        _ => None,
+                                    });
+                                    if let Some(t) = twin {
+                                        rel = RelSpec::Parse { text: t };
+                                    }
+                                }
+                            }
                             if let (Some(rm), EntryM::Alts(a)) = (build_rel_model(&rel), &mut model[mi]) {
                                 a.push(rm);
                             }
